@@ -34,6 +34,9 @@ struct TokenParser {
     tokens: Vec<Token>,
     position: usize,
     merge_subclauses: Vec<MergeSubclauses>,
+    /// `parse_set` stopped in front of an item that must run after the items parsed so far;
+    /// the rest of the SET list becomes a following SET clause.
+    set_continues: bool,
     parse_steps: usize,
     max_parse_steps: usize,
     budget_exhausted: bool,
@@ -60,6 +63,7 @@ impl TokenParser {
             tokens,
             position: 0,
             merge_subclauses: Vec::new(),
+            set_continues: false,
             parse_steps: 0,
             max_parse_steps,
             budget_exhausted: false,
@@ -174,7 +178,7 @@ impl TokenParser {
         if self.match_token(&TokenType::Where) {
             return Ok(Some(Clause::Where(self.parse_where()?)));
         }
-        if self.match_token(&TokenType::Set) {
+        if self.set_continues || self.match_token(&TokenType::Set) {
             return Ok(Some(Clause::Set(self.parse_set()?)));
         }
         if self.match_token(&TokenType::Remove) {
@@ -307,11 +311,17 @@ impl TokenParser {
             if self.match_token(&TokenType::Create) {
                 self.consume(&TokenType::Set, "Expected SET after ON CREATE")?;
                 subclauses.on_create.push(self.parse_set()?);
+                while self.set_continues {
+                    subclauses.on_create.push(self.parse_set()?);
+                }
                 continue;
             }
             if self.match_token(&TokenType::Match) {
                 self.consume(&TokenType::Set, "Expected SET after ON MATCH")?;
                 subclauses.on_match.push(self.parse_set()?);
+                while self.set_continues {
+                    subclauses.on_match.push(self.parse_set()?);
+                }
                 continue;
             }
             return Err(Error::Other(
@@ -451,9 +461,25 @@ impl TokenParser {
         let mut items = Vec::new();
         let mut map_items = Vec::new();
         let mut labels = Vec::new();
+        // The executor applies property items, then map items, then label items of one clause.
+        // Items are applied in text order, so an item of an earlier kind starts a new clause.
+        self.set_continues = false;
 
         loop {
+            let item_start = self.position;
             let variable = self.parse_set_target_variable()?;
+            let later_kind_seen = if self.check(&TokenType::Dot) {
+                !map_items.is_empty() || !labels.is_empty()
+            } else if self.check(&TokenType::Colon) {
+                false
+            } else {
+                !labels.is_empty()
+            };
+            if later_kind_seen {
+                self.position = item_start;
+                self.set_continues = true;
+                break;
+            }
             if self.match_token(&TokenType::Dot) {
                 let property = self.parse_identifier("property name")?;
                 self.consume(&TokenType::Equals, "Expected '=' in SET clause")?;
